@@ -55,6 +55,18 @@ pub fn dispatch(toks: &[&str]) -> String {
                 Err(_) => "err:1".to_string()
             }
         },
+        "probin" => {
+            let mut f = new_fimg("prodos",512).unwrap();
+            let d = unhex(toks[3]);
+            match f.pack_bin(&d,Some(num(toks[2])),None) {
+                Ok(()) => {
+                    let idx = f.ordered_indices();
+                    let chunks: Vec<String> = idx.iter().map(|i| tohex(&f.chunks[i])).collect();
+                    format!("ok:{}:{}:{}",tohex(&f.aux),f.get_eof(),chunks.join(","))
+                },
+                Err(_) => "err:1".to_string()
+            }
+        },
         "dostok" => {
             let mut f = new_fimg("dos3x",256).unwrap();
             let d = unhex(toks[2]);
